@@ -212,22 +212,13 @@ theorem spanKind_range (k : Int) : 0 ≤ spanKind k ∧ spanKind k ≤ 5 := by
 theorem decodeEvent_encodeEvent (e : Event) : decodeEvent (encodeEvent e) = some (normEvent e) := by
   simp [decodeEvent, encodeEvent, decodeKVs_encodeKVs, normEvent]
 
-theorem decodeLink_encodeLink (l : Link) (h : l.sc.traceState = []) :
-    decodeLink (encodeLink l) = some (normLink l) := by
+theorem decodeLink_encodeLink (l : Link) : decodeLink (encodeLink l) = some (normLink l) := by
   simp only [decodeLink, encodeLink, decodeKVs_encodeKVs, decodeRemote_spanFlags, normLink]
-  cases l with
-  | mk sc attrs dropped =>
-    cases sc with
-    | mk t s f ts r => simp_all
 
-theorem decodeSpan_encodeSpan (s : Span) (h : F16_span s = false) :
-    decodeSpan (s.resource.map normResource) (normScope s.scope) (encodeSpan s) = some (normSpan s) := by
-  have hl : mapOpt decodeLink (s.links.map encodeLink) = some (s.links.map normLink) := by
-    apply mapOpt_map
-    intro l hl
-    apply decodeLink_encodeLink
-    simp only [F16_span, List.any_eq_false] at h
-    simpa using h l hl
+theorem decodeSpan_encodeSpan (s : Span) :
+    decodeSpan (normRes s.resource) (normScope s.scope) (encodeSpan s) = some (normSpan s) := by
+  have hl : mapOpt decodeLink (s.links.map encodeLink) = some (s.links.map normLink) :=
+    mapOpt_map _ _ _ _ (fun l _ => decodeLink_encodeLink l)
   have he : mapOpt decodeEvent (s.events.map encodeEvent) = some (s.events.map normEvent) :=
     mapOpt_map _ _ _ _ (fun e _ => decodeEvent_encodeEvent e)
   have hk := spanKind_range s.kind
@@ -238,10 +229,11 @@ theorem decodeSpan_encodeSpan (s : Span) (h : F16_span s = false) :
   · simp [hp]
 
 theorem decodeResource_encodeTraceResource (r : Option Resource) :
-    decodeResource (encodeTraceResource r) (resSchema r) = some (r.map normResource) := by
+    decodeResourceMsg (encodeTraceResource r) (resSchema r) = some (normRes r) := by
   cases r with
-  | none => simp [decodeResource, encodeTraceResource, resSchema]
-  | some x => simp [decodeResource, encodeTraceResource, resSchema, decodeKVs_encodeKVs, normResource]
+  | none => simp [decodeResourceMsg, decodeResource, encodeTraceResource, resSchema, normRes, resKey, normKVs]
+  | some x =>
+    simp [decodeResourceMsg, decodeResource, encodeTraceResource, resSchema, decodeKVs_encodeKVs, normRes, resKey]
 
 theorem decodeScope_encodeTraceScope (sc : Scope) :
     decodeScope (encodeTraceScope sc) sc.schemaUrl = some (normScope sc) := by
@@ -257,14 +249,14 @@ theorem decodeScope_encodeTraceScope (sc : Scope) :
   · simp [hz, decodeScope, decodeKVs_encodeKVs, normScope]
 
 theorem decodeScopeSpans_encodeScopeSpans (r : Option Resource) (g : Scope × Unit × List Span)
-    (H : ∀ s ∈ g.2.2, s.scope = g.1 ∧ s.resource = r ∧ F16_span s = false) :
-    decodeScopeSpans (r.map normResource) (encodeScopeSpans g) = some (g.2.2.map normSpan) := by
+    (H : ∀ s ∈ g.2.2, s.scope = g.1 ∧ normRes s.resource = normRes r) :
+    decodeScopeSpans (normRes r) (encodeScopeSpans g) = some (g.2.2.map normSpan) := by
   simp only [decodeScopeSpans, encodeScopeSpans, decodeScope_encodeTraceScope]
   apply mapOpt_map
   intro s hs
-  obtain ⟨h1, h2, h3⟩ := H s hs
+  obtain ⟨h1, h2⟩ := H s hs
   rw [← h1, ← h2]
-  exact decodeSpan_encodeSpan s h3
+  exact decodeSpan_encodeSpan s
 
 theorem flatten_map_map {α β : Type} (f : α → β) (l : List (List α)) :
     (l.map (List.map f)).flatten = l.flatten.map f := by
@@ -274,13 +266,13 @@ theorem flatten_map_map {α β : Type} (f : α → β) (l : List (List α)) :
 def scopeGrouped (rs : List Span) : List Span := (groupBy (·.scope) (fun _ => ()) rs).flatMap (·.2.2)
 
 def groupedSpans (sdl : List (Option Span)) : List Span :=
-  (groupBy (fun s => resKey s.resource) (·.resource) (sdl.filterMap id)).flatMap fun g => scopeGrouped g.2.2
+  (groupBy (fun s => resGroupKey s.resource) (·.resource) (sdl.filterMap id)).flatMap fun g => scopeGrouped g.2.2
 
-theorem decodeResourceSpans_encodeResourceSpans (g : List KV × Option Resource × List Span)
-    (H : ∀ s ∈ g.2.2, s.resource = g.2.1 ∧ F16_span s = false) :
+theorem decodeResourceSpans_encodeResourceSpans (g : (List KV × Bytes) × Option Resource × List Span)
+    (H : ∀ s ∈ g.2.2, normRes s.resource = normRes g.2.1) :
     decodeResourceSpans (encodeResourceSpans g) = some ((scopeGrouped g.2.2).map normSpan) := by
   simp only [decodeResourceSpans, encodeResourceSpans, decodeResource_encodeTraceResource]
-  have : mapOpt (decodeScopeSpans (g.2.1.map normResource))
+  have : mapOpt (decodeScopeSpans (normRes g.2.1))
       ((groupBy (·.scope) (fun _ => ()) g.2.2).map encodeScopeSpans) =
       some ((groupBy (·.scope) (fun _ => ()) g.2.2).map fun sg => sg.2.2.map normSpan) := by
     apply mapOpt_map
@@ -288,7 +280,7 @@ theorem decodeResourceSpans_encodeResourceSpans (g : List KV × Option Resource 
     apply decodeScopeSpans_encodeScopeSpans
     intro s hs
     have hmem := groupBy_mem _ _ _ sg hsg s hs
-    exact ⟨(groupBy_ok _ _ _ sg hsg).1 s hs, (H s hmem).1, (H s hmem).2⟩
+    exact ⟨(groupBy_ok _ _ _ sg hsg).1 s hs, H s hmem⟩
   rw [this]
   simp only [Option.map_some, scopeGrouped, List.flatMap_def]
   rw [← flatten_map_map, List.map_map]
@@ -359,9 +351,9 @@ theorem decodeScopeLogs_encodeScopeLogs (res : Resource) (g : Scope × Unit × L
 def scopeGroupedLogs (rs : List LogRecord) : List LogRecord := (groupBy (·.scope) (fun _ => ()) rs).flatMap (·.2.2)
 
 def groupedLogs (rs : List LogRecord) : List LogRecord :=
-  (groupBy (·.resource.attrs) (·.resource) rs).flatMap fun g => scopeGroupedLogs g.2.2
+  (groupBy (·.resource) (·.resource) rs).flatMap fun g => scopeGroupedLogs g.2.2
 
-theorem decodeResourceLogs_encodeResourceLogs (g : List KV × Resource × List LogRecord)
+theorem decodeResourceLogs_encodeResourceLogs (g : Resource × Resource × List LogRecord)
     (H : ∀ r ∈ g.2.2, r.resource = g.2.1 ∧ r.flags < 256) :
     decodeResourceLogs (encodeResourceLogs g) = some ((scopeGroupedLogs g.2.2).map normLog) := by
   simp only [decodeResourceLogs, encodeResourceLogs, decodeLogResource_encodeLogResource]
@@ -498,18 +490,6 @@ theorem decodeScopeMetrics_encodeScopeMetrics (sm : ScopeMetrics)
     normScopeMetrics, normScope]
 
 /-! ### the Bool forms of the exclusion predicates -/
-theorem resConsistent_of_B (ss : List Span) (h : resConsistentB ss = true) : ResConsistent ss := by
-  intro a ha b hb hk
-  simp only [resConsistentB, List.all_eq_true] at h
-  have := h a ha b hb
-  simpa [hk] using this
-
-theorem logResConsistent_of_B (rs : List LogRecord) (h : logResConsistentB rs = true) : LogResConsistent rs := by
-  intro a ha b hb hk
-  simp only [logResConsistentB, List.all_eq_true] at h
-  have := h a ha b hb
-  simpa [hk] using this
-
 theorem normLog_eq_normLogS (r : LogRecord) (h1 : r.body.plain = true) (h2 : LVal.plainKVs r.attrs = true) :
     normLog r = normLogS r := by
   simp [normLog, normLogS, normLVal_of_plain _ h1, normLKVs_of_plain _ h2]
